@@ -95,6 +95,9 @@ static void __attribute__((noinline)) paint_stack(uint8_t v)
 enum { OUT_RETURNED = 0, OUT_THREW, OUT_THREW_OTHER };
 static int run_overload(int which, const uint8_t *exact, size_t n, const std::vector<uint8_t> *vec, Binson &out, std::string &msg)
 {
+    /* the receiving object has a history: deserialize must replace, not merge */
+    out.put("\x01prior", BinsonValue((int64_t)77));
+    out.put("zzprior\xff", BinsonValue(std::string("left over")));
     try {
         if (which == 0) { paint_stack(0); out.deserialize(*vec); }
         else if (which == 1) out.deserialize(exact, n);
